@@ -254,6 +254,25 @@ PROPS["C09"] = {
     "explanation": "Server.tla states the handler as a function from (node configuration, request class) to response class and TLC enumerates the whole class space against the C09 clauses with three negative controls; the real stream handler of a real DHT is fed random well-formed, malformed, oversized, stuffed and unsupported requests of every type in server and client mode with enabled/disabled value and provider subsystems, and TLC evaluates the same clauses (ServerTrace.tla) on every recorded response, reset, stored record and stored provider.",
 }
 
+PROPS["C10"] = {
+    "exhaustive": [
+        {"spec": "Client.tla", "cfg": "Client_quick.cfg"},
+        {"spec": "Client.tla", "cfg": "Client_thorough.cfg", "tier": "thorough"},
+        {"spec": "Client.tla", "cfg": "Client_neg_deref.cfg", "expect": "violation"},
+        {"spec": "Client.tla", "cfg": "Client_neg_keycheck.cfg", "expect": "violation"},
+        {"spec": "Client.tla", "cfg": "Client_neg_cap.cfg", "expect": "violation"},
+        {"spec": "Client.tla", "cfg": "Client_neg_timeout.cfg", "expect": "violation"},
+    ],
+    "drivers": [{"test": "TestClient", "trace_spec": "ClientTrace.tla", "trace_cfg": "ClientTrace.cfg", "inv_cfg": {"C10": "ClientTrace_C10.cfg"}}],
+    "assumptions": [
+        "the node runs the repository's own message sender over in-memory streams of a hand-written host that, like the libp2p swarm, refuses to dial an empty peer id or itself",
+        "each case runs in a child process because a panic in one of the library's goroutines cannot be recovered; a dead child is attributed to the case it was working on and reproduced from that case alone",
+        "'permanently blocked' is decided in virtual time: an operation that has not returned after 6 hours, or a bubble in which every goroutine is blocked for ever",
+        "the 8 KiB cut is computed independently with proto.Size on copies of the offered records",
+    ],
+    "explanation": "Client.tla models one RPC step by step (write, wait bounded by timeout and context, one retry on a fresh stream, decode, per-type field checks, cap on what enters the lookup) against a remote that may send any reply of the message space, any transport fault or nothing, and is model-checked for no-panic, error-or-result, foreign-record rejection, the 2K cap and eventual return (liveness) with four negative controls; a real client with the real message sender performs every public operation against scripted peers whose replies are generated over the response schema (every field present/absent/mismatched/oversized, unknown fields and enum values, huge and undecodable peer records, garbage, truncated/oversized/empty frames, reset, EOF, silence, refused streams), and TLC evaluates the clauses of ClientTrace.tla on every outcome, contacted peer, lookup event and peerstore content.",
+}
+
 
 def overlay_file(scratch, name):
     """Writes the -overlay json for an internal-package driver (add-only mappings)."""
@@ -790,7 +809,71 @@ def mut_c09_dead(run):
     return r
 
 
+def _c10_case(run):
+    for i, ev in enumerate(run):
+        if ev["e"] == "Case":
+            return i, ev
+    return -1, None
+
+
+def mut_c10_crash(run):
+    i, ev = _c10_case(run)
+    if ev is None or ev["crashed"]:
+        return None
+    r = copy.deepcopy(run)
+    r[i]["crashed"] = True
+    r[i]["panic"] = "panic: injected"
+    return r
+
+
+def mut_c10_hang(run):
+    i, ev = _c10_case(run)
+    if ev is None or ev["hang"]:
+        return None
+    r = copy.deepcopy(run)
+    r[i]["hang"] = True
+    r[i]["returned"] = False
+    return r
+
+
+def mut_c10_foreign_value(run):
+    i, ev = _c10_case(run)
+    if ev is None or ev["op"] not in ("getvalue", "searchvalue"):
+        return None
+    r = copy.deepcopy(run)
+    r[i]["values"] = ev["values"] + ["V91"]
+    return r
+
+
+def mut_c10_cap(run):
+    i, ev = _c10_case(run)
+    if ev is None or ev["maxheard"] < 1:
+        return None
+    r = copy.deepcopy(run)
+    r[i]["maxheard"] = 2 * ev["K"] + 1
+    return r
+
+
+def mut_c10_beyond(run):
+    i, ev = _c10_case(run)
+    if ev is None or not ev["contacted"]:
+        return None
+    r = copy.deepcopy(run)
+    r[i]["contacted"] = ev["contacted"] + [{"l": "L1.%d" % (2 * ev["K"] + 1), "kind": "L", "owner": 1, "idx": 2 * ev["K"] + 1}]
+    return r
+
+
+def mut_c10_extra(run):
+    i, ev = _c10_case(run)
+    if ev is None or ev["extraaddrs"]:
+        return None
+    r = copy.deepcopy(run)
+    r[i]["extraaddrs"] = [{"l": "L1.1", "extra": 3, "offered": 300}]
+    return r
+
+
 MUTATIONS = {
+    "C10": [mut_c10_crash, mut_c10_hang, mut_c10_foreign_value, mut_c10_cap, mut_c10_beyond, mut_c10_extra],
     "C09": [mut_c09_requester, mut_c09_client_answers, mut_c09_unsorted, mut_c09_omit_nearest, mut_c09_foreign_provider, mut_c09_put_mismatch, mut_c09_dead],
     "C01": [mut_c01_unsorted, mut_c01_drop_nearest, mut_c01_resp_event],
     "C02": [mut_c02_unasked],
